@@ -46,7 +46,7 @@ func init() {
 		MinEvals:        floor(200000, 3000000),
 		MinDistinct:     floor(8000, 150000),
 		RequiredCells: func(string) []string {
-			return []string{"mut/bitflip", "mut/delete", "mut/insert", "mut/substitute", "mut/field-rewrite", "mut/sig-other-key", "mut/sig-transplant", "mut/sig-truncated", "mut/sig-zeroed", "mut/sig-junk", "mut/sig-junk-on-rewritten-payload", "mut/sig-extended", "mut/sig-by-did-prefix-colliding-key", "mut/header-swap", "mut/header-swap-resigned", "mut/own-header-variant-resigned", "mut/signed-over-dagjson-text", "mut/genuine-envelope-spliced-into-nonce", "mut/extra-key-resigned", "mut/other-tag-resigned", "mut/json-field-rewrite", "mut/json-char-edit",
+			return []string{"mut/bitflip", "mut/delete", "mut/insert", "mut/substitute", "mut/field-rewrite", "mut/sig-other-key", "mut/sig-transplant", "mut/sig-truncated", "mut/sig-zeroed", "mut/sig-junk", "mut/sig-junk-on-rewritten-payload", "mut/sig-extended", "mut/sig-by-did-prefix-colliding-key", "mut/header-swap", "mut/header-swap-resigned", "mut/own-header-variant-resigned", "mut/signed-over-dagjson-text", "mut/genuine-envelope-spliced-into-nonce", "mut/extra-key-resigned", "mut/extra-key-after-tag-resigned", "mut/extra-key-before-tag-resigned", "mut/second-payload-resigned", "mut/other-tag-resigned", "mut/json-field-rewrite", "mut/json-char-edit",
 				"concurrent", "concurrent/genuine", "concurrent/forged", "concurrent/large", "outcome/rejected", "outcome/accepted-same-content", "base/dlg", "base/inv", "base/ed25519", "base/non-ed25519"}
 		},
 	})
@@ -713,17 +713,32 @@ func runC06(w *mon.W) {
 		}
 		// 6. envelope shape edits, re-signed by the issuer
 		if mine() {
-			sp := ref.Map(ref.E("h", ref.Bytes(b.info.Header)), ref.E(b.info.Tag, b.info.Payload), ref.E("x", ref.Int(1)))
-			if data, err := ref.EncodeDagCbor(sp); err == nil {
-				if sig, err := def.iss.Priv.Sign(data); err == nil {
-					if enc, err := ref.EncodeDagCbor(ref.List(ref.Bytes(sig), sp)); err == nil {
-						c06Offer(w, b, "extra-key-resigned", enc, "dagcbor", decs)
-					}
-				}
-			}
 			otherTag := ref.TagInvocation
 			if b.info.Tag == ref.TagInvocation {
 				otherTag = ref.TagDelegation
+			}
+			// a third entry in the signed part: one that the canonical order puts before the tag (a
+			// short key), ones it puts after it (a longer key; a key of the tag's length that compares
+			// greater), and a second payload under the other type's tag - on either side of the real one
+			extras := []struct {
+				cell string
+				e    ref.KV
+			}{
+				{"extra-key-resigned", ref.E("x", ref.Int(1))},
+				{"extra-key-after-tag-resigned", ref.E("x-extension-of-the-signed-payload", ref.Int(1))},
+				{"extra-key-after-tag-resigned", ref.E("zcan/ext@1.0.0-rc.1", ref.Map(ref.E("k", ref.Str("v"))))},
+				{"extra-key-before-tag-resigned", ref.E("acan/ext@1.0.0-rc.1", ref.Int(1))},
+				{"second-payload-resigned", ref.E(otherTag, b.info.Payload)},
+			}
+			for _, ex := range extras {
+				sp := ref.Map(ref.E("h", ref.Bytes(b.info.Header)), ref.E(b.info.Tag, b.info.Payload), ex.e)
+				if data, err := ref.EncodeDagCbor(sp); err == nil {
+					if sig, err := def.iss.Priv.Sign(data); err == nil {
+						if enc, err := ref.EncodeDagCbor(ref.List(ref.Bytes(sig), sp)); err == nil {
+							c06Offer(w, b, ex.cell, enc, "dagcbor", decs)
+						}
+					}
+				}
 			}
 			if re, err := ref.SignEnvelope(def.iss.Priv, nil, otherTag, b.info.Payload); err == nil {
 				if enc, err := ref.EncodeDagCbor(re); err == nil {
